@@ -1,3 +1,4 @@
+import Driver.C18
 import Driver.C11
 import Driver.C06
 import Driver.C01
@@ -7,4 +8,5 @@ def main (args : List String) : IO UInt32 := do
   | ["C11"] => Driver.C11.main; return 0
   | ["C06"] => Driver.C06.main; return 0
   | ["C01"] => Driver.C01.main; return 0
+  | ["C18"] => Driver.C18.main; return 0
   | _ => IO.eprintln "usage: stirdriver <C01..C20>"; return 2
